@@ -462,7 +462,6 @@ symbol_t* value, ArbitrationState* arbitrationState) {
         if (!m_resetRequested && m_resetTime+3 >= time(NULL)) {
           if (data == m_extraFeatures) {
             // skip explicit response to init request
-            valueSet = false;
             break;
           }
           // response to init request had different feature flags
@@ -477,7 +476,6 @@ symbol_t* value, ArbitrationState* arbitrationState) {
           if (m_extraFeatures&0x01) {
             requestEnhancedInfo(0, false);  // request version, ignore result
           }
-          valueSet = false;
           break;
         }
         m_transport->close();  // on self-reset of device close and reopen it to have a clean startup
